@@ -109,3 +109,48 @@ fn vf_config_check_untouched_iff_ok() {
     }
     println!("VF-SUMMARY test=config_check_untouched_iff_ok checked={} nontrivial={} bad={}", checked, checked - 2, bad);
 }
+
+// C18: whether a configuration is accepted, and what it means, depends on the JSON VALUE the file denotes - not on how its strings
+// are spelled.  Every key and every string value written with a \uXXXX escape for one of its characters denotes the same value.
+fn vf_spell(v: &serde_json::Value, escape: bool, out: &mut String) {
+    fn s(x: &str, escape: bool, out: &mut String) {
+        out.push('"');
+        for (i, ch) in x.chars().enumerate() {
+            if escape && i == x.chars().count() / 2 && ch.is_ascii_alphanumeric() { out.push_str(&format!("\\u{:04x}", ch as u32)); }
+            else if ch == '"' || ch == '\\' { out.push('\\'); out.push(ch); } else { out.push(ch); }
+        }
+        out.push('"');
+    }
+    match v {
+        serde_json::Value::Object(m) => { out.push('{'); for (i, (k, x)) in m.iter().enumerate() { if i > 0 { out.push(','); } s(k, escape, out); out.push(':'); vf_spell(x, escape, out); } out.push('}'); }
+        serde_json::Value::Array(a) => { out.push('['); for (i, x) in a.iter().enumerate() { if i > 0 { out.push(','); } vf_spell(x, escape, out); } out.push(']'); }
+        serde_json::Value::String(x) => s(x, escape, out),
+        other => out.push_str(&other.to_string()),
+    }
+}
+#[test]
+fn vf_config_value_spellings() {
+    let td = crate::core::testing::new_testdir().unwrap();
+    let (mut checked, mut bad) = (0u64, 0u64);
+    let docs = [
+        r#"{"targets":[{"path":"svc/api","uses":["lib/core"],"ignores":["svc/api/docs"]},{"path":"lib/core"}]}"#,
+        r#"{"out_dir":"build-out","max_retained_runs":7,"change_provider":{"use":"git"},"targets":[{"path":"app","commands":{"path":"scripts","definitions":{"build":{"path":"scripts/b.sh"}}},"argmaps":{"path":"maps"}}],"sequences":{"dev":["build","test"]},"server":{"log":{"host":"127.0.0.1","port":5918,"bind_timeout_ms":1000},"lock":{"host":"127.0.0.1","port":5917,"bind_timeout_ms":1000}}}"#,
+    ];
+    for (di, doc) in docs.iter().enumerate() {
+        let v: serde_json::Value = serde_json::from_str(doc).unwrap();
+        let mut plain = String::new(); vf_spell(&v, false, &mut plain);
+        let mut escaped = String::new(); vf_spell(&v, true, &mut escaped);
+        assert_eq!(serde_json::from_str::<serde_json::Value>(&escaped).unwrap(), v, "finder bug: the spellings do not denote one value");
+        checked += 1;
+        let (pp, pe) = (td.path().join(format!("plain{}.json", di)), td.path().join(format!("escaped{}.json", di)));
+        std::fs::write(&pp, &plain).unwrap(); std::fs::write(&pe, &escaped).unwrap();
+        match (Config::new(&pp), Config::new(&pe)) {
+            (Ok(a), Ok(b)) => { let (mut ja, mut jb) = (serde_json::to_value(&a).unwrap(), serde_json::to_value(&b).unwrap()); for j in [&mut ja, &mut jb] { if let Some(o) = j.as_object_mut() { o.remove("checksum"); } }
+                if ja != jb { bad += 1; println!("VF-FAIL configuration #{} spelled with and without \\u escapes :: the two spellings of one value are read as different configurations (C18)", di); } }
+            (Ok(_), Err(e)) => { bad += 1; println!("VF-FAIL configuration #{} with every key and string written with one \\uXXXX escape :: rejected ({}) although the plain spelling of the same value is accepted (C18)", di, e); }
+            (Err(e), _) => { bad += 1; println!("VF-FAIL configuration #{} (plain spelling) :: a valid configuration was rejected: {} (C18)", di, e); }
+        }
+    }
+    println!("VF-SUMMARY test=config_value_spellings checked={} nontrivial={} bad={}", checked, checked, bad);
+}
+
